@@ -134,6 +134,7 @@ type concRun struct {
 	Errs   []string
 	Viol   []string
 	Descr  []string
+	TrVals map[string]bool // values written through a transaction (never in the journal)
 	Stor   *harness.World
 }
 
@@ -199,6 +200,10 @@ func runConc(p *concParams, prefix []int, extra func(w *harness.World, cr *concR
 					}
 					val := fmt.Sprintf("c%d.%d", ci, oi)
 					switch t {
+					case "putL":
+						// a value large enough to exceed the merge capacity of a 64-byte write buffer
+						val = val + strings.Repeat("L", 60)
+						fallthrough
 					case "put":
 						b := model.Batch{{K: arg, V: val}}
 						call := tick()
@@ -220,6 +225,12 @@ func runConc(p *concParams, prefix []int, extra func(w *harness.World, cr *concR
 								v := fmt.Sprintf("%s.%d", val, j)
 								mb = append(mb, model.BatchOp{K: f[1:], V: v})
 								lb.Put([]byte(f[1:]), []byte(v))
+								if t == "tr" {
+									if cr.TrVals == nil {
+										cr.TrVals = map[string]bool{}
+									}
+									cr.TrVals[v] = true
+								}
 							}
 						}
 						call := tick()
